@@ -1,4 +1,7 @@
-(* C19 — model of env_util::expand_env_vars (src/append/mod.rs).
+(* C19 — model of env_util::expand_env_vars (src/append/mod.rs, as of fix cc9466f: the
+   output is built in ONE pass over the original path).  The algorithm the crate used before
+   that fix (sequential replace-all on the rewritten output) is kept at the end of this file
+   as `old_expand`, for the record of the defect only.
 
    Strings are lists of Unicode scalar values; every index the Rust code computes is a
    BYTE offset into the UTF-8 encoding, so the model carries byte offsets
@@ -10,7 +13,7 @@
    * `str::match_indices(pat)`: byte offsets of the disjoint occurrences of `pat`, left
      to right (`match_indices`);
    * `str::replace(from, to)`: replaces all disjoint occurrences, left to right
-     (`replace_all`).  Both search bytes in Rust; on valid UTF-8 a match of a valid UTF-8
+     (`replace_all`; used by the pre-fix algorithm only).  Both search bytes in Rust; on valid UTF-8 a match of a valid UTF-8
      needle always starts and ends on character boundaries (UTF-8 is self-synchronising),
      so matching is done on scalar values here;
    * `char::is_alphanumeric`: exact on ASCII, an oracle `uni_alnum` on the rest (a
@@ -117,13 +120,58 @@ Section Expand.
       else None                                             (* break false *)
     end.
 
-  (* one iteration of the `for` loop *)
-  Definition step (path : ustr) (outpath : res) (match_start : N) : res :=
+  (* one iteration of the `for` loop; the state is (outpath, copied), None = a panic *)
+  Definition step (path : ustr) (st : option (ustr * N)) (match_start : N) : option (ustr * N) :=
+    match st with
+    | None => None
+    | Some (outpath, copied) =>
+      let env_name_start := match_start + env_prefix_len in
+      match bdrop path env_name_start with            (* path.split_at(env_name_start) *)
+      | None => None
+      | Some tail =>
+        match tail with
+        | [] => st
+        | ch :: cs =>
+          if is_env_var_start ch then
+            match name_loop cs with
+            | None => st
+            | Some nm =>
+              let env_name := ch :: nm in
+              match env env_name with
+              | None => st
+              | Some env_value =>
+                let match_end := env_name_start + blen env_name + 1 in
+                match bslice path copied match_start with        (* &path[copied..match_start] *)
+                | None => None
+                | Some lit => Some (outpath ++ lit ++ env_value, match_end)
+                end
+              end
+            end
+          else st
+        end
+      end
+    end.
+
+  Definition expand (path : ustr) : res :=
+    match fold_left (step path) (match_indices env_prefix path) (Some ([], 0)) with
+    | None => Panic
+    | Some (outpath, copied) =>
+      if copied =? 0 then Ok path                      (* nothing replaced: the input itself *)
+      else match bdrop path copied with                (* &path[copied..] *)
+           | None => Panic
+           | Some t => Ok (outpath ++ t)
+           end
+    end.
+
+  (* ---- PRE-FIX algorithm (before cc9466f), not what the crate does now ----
+     every reference found in the ORIGINAL path was substituted with a replace-all on the
+     progressively rewritten output *)
+  Definition old_step (path : ustr) (outpath : res) (match_start : N) : res :=
     match outpath with
     | Panic => Panic
     | Ok out =>
       let env_name_start := match_start + env_prefix_len in
-      match bdrop path env_name_start with            (* path.split_at(env_name_start) *)
+      match bdrop path env_name_start with
       | None => Panic
       | Some tail =>
         match tail with
@@ -138,7 +186,7 @@ Section Expand.
               | None => Ok out
               | Some env_value =>
                 let match_end := env_name_start + blen env_name + 1 in
-                match bslice path match_start match_end with     (* &path[match_start..match_end] *)
+                match bslice path match_start match_end with
                 | None => Panic
                 | Some needle => Ok (replace_all out needle env_value)
                 end
@@ -149,8 +197,8 @@ Section Expand.
       end
     end.
 
-  Definition expand (path : ustr) : res :=
-    fold_left (step path) (match_indices env_prefix path) (Ok path).
+  Definition old_expand (path : ustr) : res :=
+    fold_left (old_step path) (match_indices env_prefix path) (Ok path).
 End Expand.
 
 (* finite tables for running the model *)
